@@ -34,15 +34,119 @@ def run_worlds(worlds, jobs=None):
         cases.append(c)
     return cases
 
+def count_ops(r):
+    return len(r.ops), sum(1 for op in r.ops if op[1] in ("openc", "mkdirs", "setlen", "write"))
+
+def fault_worlds(tier, seed):
+    """C13: every single operation of small worlds failing, one at a time (quick) and in pairs (thorough)"""
+    import copy
+    nworlds = 12 if tier == "quick" else 120
+    out = []
+    for i in range(nworlds):
+        rng = Rng(seed, "c13", i)
+        w = W.gen_small_world(rng)
+        w.threads = 1 if i % 4 else rng.choice([2, 3])
+        w.tag = "fault-free"
+        base = W.execute(w)
+        n, _ = count_ops(base)
+        out.append(w)
+        ks = list(range(n)) if n <= (60 if tier == "quick" else 150) else sorted(set(rng.below(n) for _ in range(60)))
+        for k in ks:
+            v = copy.copy(w); v.faults = [k]; v.tag = "fault@%d" % k
+            out.append(v)
+        if tier == "thorough":
+            for _ in range(40):
+                a, b = rng.below(n), rng.below(n)
+                if a != b:
+                    v = copy.copy(w); v.faults = sorted([a, b]); v.tag = "faults@%d,%d" % (a, b)
+                    out.append(v)
+    return out
+
+def crash_worlds(tier, seed):
+    """C11: every prefix of the mutating operations (a write cut after 0, 1, mid bytes), then a clean re-run"""
+    import copy
+    nworlds = 12 if tier == "quick" else 120
+    out = []
+    for i in range(nworlds):
+        rng = Rng(seed, "c11", i)
+        w = W.gen_small_world(rng)
+        w.threads = 1
+        base = W.execute(w)
+        _, m = count_ops(base)
+        w.tag = "uninterrupted"
+        out.append(w)
+        muts = [op for op in base.ops if op[1] in ("openc", "mkdirs", "setlen", "write")]
+        for k in range(m):
+            js = [0]
+            if muts[k][1] == "write":
+                ln = 0 if muts[k][3][1] == "-" else len(muts[k][3][1]) // 2
+                js = sorted(set([0, 1, ln // 2, max(0, ln - 1)]))
+            elif muts[k][1] == "mkdirs":
+                js = [0, 1, 2]
+            for j in js:
+                v = copy.copy(w); v.crash = (k, j); v.tag = "crash@%d,%d" % (k, j)
+                out.append(v)
+    return out
+
+def run_crash_cases(worlds):
+    """execute crash worlds; for every crashed run also run the tool again on the tree it left (the resume run)"""
+    cases = run_worlds(worlds)
+    resumes = []
+    for c in cases:
+        r = c.result
+        if r.world.crash is None or r.result != "crash":
+            continue
+        v = W.world_from_snapshot(r.world, r.after_dirs, r.after_files)
+        v.tag = "resume-after-" + r.world.tag
+        resumes.append(v)
+    return cases + run_worlds(resumes)
+
+def meta_worlds(tier, seed):
+    """C17: a world and transformed presentations of it"""
+    n = 40 if tier == "quick" else 800
+    out = []
+    for i in range(n):
+        rng = Rng(seed, "c17", i)
+        w = W.gen_world(rng)
+        w.tag = "base"
+        group = [w] + [W.transform_presentation(rng, w, k) for k in rng.shuffle(list(range(7)))[:4]]
+        for g in group:
+            g.group = i
+        out += group
+    return out
+
+def compare_groups(cases):
+    """C17: final trees of all presentations of one world must be identical"""
+    fails = []
+    byg = {}
+    for c in cases:
+        g = getattr(c.result.world, "group", None)
+        if g is not None:
+            byg.setdefault(g, []).append(c)
+    for g, cs in byg.items():
+        base = cs[0].result
+        ref = {p: v[0] for p, v in base.after_files.items()}
+        for c in cs[1:]:
+            tree = {p: v[0] for p, v in c.result.after_files.items()}
+            if tree != ref or sorted(c.result.after_dirs) != sorted(base.after_dirs):
+                c.fails = c.fails + ["c17-tree-differs"]
+                c.base = base
+    return cases
+
 PROPS = {
     "C01": dict(module="TB.Props.C01", theorems=[], clauses=["c01-"], worlds=lambda t, s: worlds_default(t, s, "c01", 400, 8000, tweak_threads)),
     "C02": dict(module="TB.Props.C02", theorems=[], clauses=["c02-"], worlds=lambda t, s: worlds_default(t, s, "c02", 400, 8000, tweak_threads)),
     "C03": dict(module="TB.Props.C03", theorems=[], clauses=["c03-"], worlds=lambda t, s: worlds_default(t, s, "c03", 300, 6000, tweak_threads)),
     "C04": dict(module="TB.Props.C04", theorems=[], clauses=["c04-"], worlds=lambda t, s: worlds_default(t, s, "c04", 300, 6000, tweak_threads)),
     "C12": dict(module="TB.Props.C12", theorems=[], clauses=["c12-"], worlds=lambda t, s: worlds_default(t, s, "c12", 300, 6000, tweak_threads)),
-    "C14": dict(module="TB.Props.C14", theorems=[], clauses=["c14-"], worlds=lambda t, s: worlds_default(t, s, "c14", 300, 6000, tweak_resize)),
+    "C14": dict(module="TB.Props.C14", theorems=[], clauses=["c14-"],
+                worlds=lambda t, s: [W.gen_world_c14(Rng(s, "c14", i)) for i in range(400 if t == "quick" else 8000)]),
     "C15": dict(module="TB.Props.C15", theorems=[], clauses=["c15-"], worlds=lambda t, s: worlds_default(t, s, "c15", 300, 6000, tweak_threads)),
-    "C16": dict(module="TB.Props.C16", theorems=[], clauses=["c16-"], worlds=lambda t, s: worlds_default(t, s, "c16", 300, 6000, tweak_threads)),
+    "C16": dict(module="TB.Props.C16", theorems=[], clauses=["c16-", "c03-", "c12-"],
+                worlds=lambda t, s: [W.gen_world_c16(Rng(s, "c16", i), i) for i in range(400 if t == "quick" else 8000)]),
+    "C13": dict(module="TB.Props.C13", theorems=[], clauses=["c13-", "c01-", "c16-"], worlds=fault_worlds),
+    "C11": dict(module="TB.Props.C11", theorems=[], clauses=["c11-", "c02-", "c01-"], worlds=crash_worlds, runner=run_crash_cases),
+    "C17": dict(module="TB.Props.C17", theorems=[], clauses=["c17-", "c01-", "c02-", "c03-", "c04-", "c12-"], worlds=meta_worlds, post=compare_groups),
 }
 
 def nontrivial(c):
@@ -84,7 +188,11 @@ def run(pid, tier, seed, replay=None, props=None):
         print("(the replay file holds the full world; re-execution of the implementation on it: ./check %s --tier quick with VERIF_SEED=%s)" % (pid, payload.get("seed")))
         return 0
     worlds = cfg["worlds"](tier, seed)
-    cases = run_worlds(worlds)
+    cases = cfg.get("runner", run_worlds)(worlds)
+    if "post" in cfg:
+        cases = cfg["post"](cases)
+    for c in cases:
+        res.count("tag:" + (c.result.world.tag or "world").split("@")[0])
     failing, disagree = E.judge_cases(res, cases, cfg["clauses"], nontrivial, known)
     for c in cases:
         r = c.result
